@@ -178,22 +178,37 @@ def agree(a, b, tolerant):
 
 
 def _agree(a, b, tolerant):
+    """exact mode: equal rationals or DIFF.  Tolerant mode (a float fold happened, or the
+    oracle itself approximated a non-integer power), with d = |a - b|:
+      SAME  iff d <= 1e-9 * max(|a|, |b|)   (tight, relative to the values themselves)
+              or d <= 1e-13 * scale          (rounding level even under cancellation)
+      DIFF  iff d >  1e-6 * scale            (clearly apart even allowing for conditioning)
+      SKIP  otherwise.
+    `scale` over-estimates magnitudes (it multiplies absolute values through powers), so it
+    is only trusted for the DIFF side; judging SAME relative to scale made a false equation
+    look true after a restructuring changed the scale."""
     if a.ill or b.ill:
         return SKIP
-    if not (a.approx or b.approx):
+    approx = a.approx or b.approx
+    if not approx:
         if a.v == b.v:
             return SAME
         if not tolerant:
             return DIFF
-    d = abs(_f(a.v) - _f(b.v)) if (a.approx or b.approx) else abs(a.v - b.v)
-    sc = max(_f(a.s), _f(b.s)) if (a.approx or b.approx) else max(a.s, b.s)
-    if sc == 0:
-        return SAME if d == 0 else DIFF
-    if d <= (1e-9 if isinstance(d, float) else TOL_OK) * sc:
+    if approx:
+        av, bv = _f(a.v), _f(b.v)
+        sc = max(_f(a.s), _f(b.s))
+        d = abs(av - bv)
+        mag = max(abs(av), abs(bv))
+        if d <= 1e-9 * mag or d <= 1e-13 * sc:
+            return SAME
+        return DIFF if d > 1e-6 * sc else SKIP
+    d = abs(a.v - b.v)
+    sc = max(a.s, b.s)
+    mag = max(abs(a.v), abs(b.v))
+    if d <= TOL_OK * mag or d <= Fraction(1, 10 ** 13) * sc:
         return SAME
-    if d > (1e-6 if isinstance(d, float) else TOL_BAD) * sc:
-        return DIFF
-    return SKIP
+    return DIFF if d > TOL_BAD * sc else SKIP
 
 
 def holds(s, sigma, tolerant=False):
